@@ -83,7 +83,79 @@ def run(ctx):
                       "state writes / epoch change / events in next_round", min_targets=3)
         live = any("ConsensusManagerError::InvalidRoundUpdate" in v for x in bs for v in x.fn.vars)
         ctx.ob("next_round|InvalidRoundUpdate-live", live, "InvalidRoundUpdate is constructed in next_round", b.loc())
-    n = "radix_engine_interface::blueprints::consensus_manager::invocations::Round::calculate_progress"
+    ctx.rule("T2: Round::calculate_progress returns Some only past a strict *ordering* test `to > from` (a signed difference compared "
+             "with 0, or the two rounds compared directly); an equality / zero-distance test alone does not qualify")
     cand = [x for x in F.fns if x.endswith("Round::calculate_progress")]
     ctx.ob("calculate_progress|anchor", len(cand) == 1, f"Round::calculate_progress found: {cand}")
-    ctx.assume("'+1 exactly', minute rounding and the comparison inside Round::calculate_progress are value-level and not decided")
+    if len(cand) == 1:
+        b = ctx.body(cand[0])
+        somes = [bb for bb, k in b.ret_assignments() if k == "Some"]
+        check_guarded(ctx, "calculate_progress|some-only-if-to-greater", b, somes, [G_custom(progress_guard, "to > from (strict ordering test)")], "Some(progress)")
+    ctx.assume("'+1 exactly' and minute rounding are value-level and not decided")
+
+
+def _deps(body, op):
+    return {a.what for a in body.origins(op, deep=True) if a.kind == "param"}
+
+
+def _signed_difference(body, op):
+    """if `op` is (through copies/casts) `a - b` on a signed type with a,b each depending on exactly one parameter -> (param_of_a, param_of_b)"""
+    cur = op
+    for _ in range(8):
+        if cur[0] == "k":
+            return None
+        ds = [d for d in body.defs(cur[1][0])]
+        if len(ds) != 1 or ds[0][1] != "=":
+            return None
+        rv = ds[0][2]["rv"]
+        if rv["k"] in ("use", "cast"):
+            cur = rv["o"]
+            continue
+        if rv["k"] == "bin" and rv["op"].startswith("Sub"):
+            ty = body.locals[ds[0][2]["p"][0]][0]
+            if not re.match(r"^\(?i(8|16|32|64|128|size)", ty):
+                return None
+            da, db = _deps(body, rv["a"]), _deps(body, rv["b"])
+            if len(da) == 1 and len(db) == 1 and da != db:
+                return next(iter(da)), next(iter(db))
+            return None
+        return None
+    return None
+
+
+def progress_guard(body):
+    """pass edges of strict ordering tests establishing param#2 (to) > param#1 (from)"""
+    edges, blocks = [], []
+    TO, FROM = 2, 1
+    for sb in body.switches():
+        si = body.switch_info(sb)
+        if not si or si["kind"] != "bool":
+            continue
+        for a in si["atoms"]:
+            if a.kind != "bin" or a.what not in ("Lt", "Le", "Gt", "Ge"):
+                continue
+            x, y, op = a.extra["a"], a.extra["b"], a.what
+            truth = None   # truth value of the comparison that means to > from
+            zx, zy = body.const_value(x) == 0 and x[0] == "k", body.const_value(y) == 0 and y[0] == "k"
+            if zy and not zx:
+                d = _signed_difference(body, x)
+                if d == (TO, FROM):       # x = to - from
+                    truth = {"Gt": True, "Le": False}.get(op)
+                elif d == (FROM, TO):     # x = from - to
+                    truth = {"Lt": True, "Ge": False}.get(op)
+            elif zx and not zy:
+                d = _signed_difference(body, y)
+                if d == (TO, FROM):
+                    truth = {"Lt": True, "Ge": False}.get(op)
+                elif d == (FROM, TO):
+                    truth = {"Gt": True, "Le": False}.get(op)
+            else:
+                dx, dy = _deps(body, x), _deps(body, y)
+                if dx == {TO} and dy == {FROM}:
+                    truth = {"Gt": True, "Le": False}.get(op)
+                elif dx == {FROM} and dy == {TO}:
+                    truth = {"Lt": True, "Ge": False}.get(op)
+            if truth is not None:
+                edges.append((sb, si["true"] if truth else si["false"]))
+                blocks.append(sb)
+    return edges, blocks
